@@ -49,6 +49,11 @@ func (t PredefinedTopics) GetTopicID(clientID, topic string) (uint16, bool) {
 	if tAll, ok := t["*"]; ok {
 		for topicID, topicName := range tAll {
 			if topicName == topic {
+				// The clientID-specific topic with the same topicID takes
+				// precedence over the "*" one (see GetTopicName).
+				if _, shadowed := t[clientID][topicID]; shadowed {
+					continue
+				}
 				return topicID, true
 			}
 		}
